@@ -17,7 +17,9 @@ RULE = ("roundtrip: random univariate equal-length panels (1-6 instances, length
         "exact decimals), 0-4 class labels incl. mixed case / digits / punctuation; every third panel "
         "2-5 labels over the WHOLE label alphabet (printable ASCII without ':' and '?') built around "
         "one special character, all 30 of them in turn (c vs c# vs c#1 vs #c ...), a few non-ASCII "
-        "(Python side only); comment absent / "
+        "(Python side only); 40% of the other panels: class values BY TYPE with a falsy member - "
+        "ints incl. 0, floats incl. 0.0 / -0.0, booleans, the empty and white-space-only string - "
+        "handed over as a list of Python values, a list of numpy scalars or an ndarray; comment absent / "
         "short / wrapping / containing tag look-alikes, equal_length + series_length headers in all "
         "four combinations, mixed-case problem names; written by the real writer, loaded by the real "
         "loader, the written lines re-parsed by the model inside Coq.  ts_lines: hand-built .ts files "
@@ -164,6 +166,30 @@ def _alphabet_labels(rng, ch, k):
     return out[:max(2, k)]
 
 
+# class values by TYPE (the writer prints them with an f-string, the loader returns strings): each
+# pool has a FALSY member (0, 0.0, False, the empty / a white-space-only string) next to others;
+# what comes back is str(value).strip().lower() - measured on the unchanged writer / loader pair.
+# "" / " " / "\t" all come back as '' (the loader strips); a label list of ONLY empty strings is
+# not generated: its header line `@classLabel true ` cannot be told from one without labels.
+TYPED_POOLS = [("int", [0, 1]), ("int", [0, 1, 2, 3]), ("int", [-1, 0, 1]), ("int", [0]),
+               ("float", [0.0, 1.0, 2.5]), ("float", [0.0, -1.5]), ("float", [-0.0, 0.5]),
+               ("bool", [False, True]), ("bool", [False]),
+               ("str", ["", "a", "B"]), ("str", ["", "0"]), ("str", [" ", "x"]),
+               ("str", ["\t", "yes", ""]), ("str", ["0", "00", "False"])]
+
+
+def _typed_labels(rng, n):
+    typ, pool = rng.choice(TYPED_POOLS)
+    labels = list(pool)
+    class_values = [rng.choice(labels) for _ in range(n)]
+    class_values[rng.randrange(n)] = labels[0]          # the falsy member occurs
+    # how the values are handed over: a list of Python values, a list of numpy scalars, an ndarray
+    # (docstring: class_value_list is a list / ndarray; class_label is a list)
+    form = rng.choice(["list", "numpy-scalars", "ndarray"] if typ != "str" else
+                      ["list", "list", "ndarray", "object-ndarray"])
+    return labels, class_values, {"type": typ, "form": form}
+
+
 def _gen_roundtrip(rng, special=None):
     n = rng.choice([1, 1, 2, 2, 3, 3, 4, 5, 6])
     m = rng.choice([1, 2, 2, 3, 3, 4, 5, 6, 8, 10, 12, 16, 24, 30])
@@ -180,6 +206,9 @@ def _gen_roundtrip(rng, special=None):
         if pool in (["1", "2"], ["0", "1", "2", "3"], ["-1", "1"]) and rng.random() < 0.5:
             labels = [int(x) for x in labels]          # integer class labels, as np.unique gives
             class_values = [int(x) for x in class_values]
+    label_form = None
+    if special is None and rng.random() < 0.4:
+        labels, class_values, label_form = _typed_labels(rng, n)
     if special is not None:
         # labels over the whole label alphabet, built around one special character (now and then
         # non-ASCII labels: Python-side comparison only)
@@ -206,7 +235,7 @@ def _gen_roundtrip(rng, special=None):
             rng.shuffle(row_index)
     elif u < 0.4:
         row_index = sorted(rng.sample(range(50), len(rows)), reverse=rng.random() < 0.5)
-    return {"row_index": row_index,
+    return {"row_index": row_index, "label_form": label_form,
             "kind": "roundtrip", "regime": regime, "values": rows, "labels": labels,
             "class_values": class_values, "name": rng.choice(NAMES),
             "comment": rng.choice(COMMENTS), "equal_length": el, "series_length": sl}
@@ -894,10 +923,20 @@ def _run_impl(case):
         path = os.path.join(d, case["name"], case["name"] + "_transform.ts")
         if os.path.exists(path):
             os.remove(path)
+        class_values = case["class_values"]
+        lf = case.get("label_form")
+        if lf and class_values:
+            npt = {"int": np.int64, "float": np.float64, "bool": np.bool_, "str": np.str_}[lf["type"]]
+            if lf["form"] == "numpy-scalars":
+                class_values = [npt(v) for v in class_values]
+            elif lf["form"] == "ndarray":
+                class_values = np.asarray(class_values, dtype=npt if lf["type"] != "str" else None)
+            elif lf["form"] == "object-ndarray":
+                class_values = np.asarray(class_values, dtype=object)
         try:
             write_dataframe_to_tsfile(
                 X, d, problem_name=case["name"], class_label=case["labels"],
-                class_value_list=case["class_values"], equal_length=case["equal_length"],
+                class_value_list=class_values, equal_length=case["equal_length"],
                 series_length=case["series_length"], comment=case["comment"],
                 univariate=case.get("univariate", True))
         except (ValueError, IndexError) as e:
@@ -1030,6 +1069,17 @@ def _norm_label(v):
 
 
 def oracle(case, out):
+    msg = _oracle(case, out)
+    lf = case.get("label_form") if case["kind"] == "roundtrip" else None
+    if msg and lf and ":" in msg and case.get("class_values"):
+        # one clause (hence one replay) per type of class value
+        head, rest = msg.split(":", 1)
+        msg = "%s (%s class values):%s [class_value_list %r given as %s]" % (
+            head, lf["type"], rest, case["class_values"], lf["form"])
+    return msg
+
+
+def _oracle(case, out):
     import math
     from decimal import Decimal
     k = case["kind"]
@@ -1582,6 +1632,11 @@ def distribution(cases, results):
                 if ch in "#%@,+-./":
                     d["roundtrip:label-has %s" % ch] += 1
             d["roundtrip:instances=%d" % len(c["values"])] += 1
+            lf = c.get("label_form")
+            if lf:
+                d["roundtrip:class-values=%s as %s" % (lf["type"], lf["form"])] += 1
+                if any(not v for v in c["class_values"]):
+                    d["roundtrip:falsy-class-value"] += 1
             d["roundtrip:%s" % ("comment" if c["comment"] else "no-comment")] += 1
             d["roundtrip:equal_length=%s,series_length=%s" % (
                 c["equal_length"], c["series_length"] > 0)] += 1
